@@ -208,8 +208,8 @@ def judge_case(case, r):
     if hist is not None:
         how = ("the pose array handed to the constructor" if hist["ctor_array"] else "the array of the first update_pose") + \
               (" (matrix 1 of a (3,4,4) stack)" if hist.get("stack") else "")
-        name = (f"[history: constructed at another pose, aabb(), then {len(hist['mids']) + 1} update_pose call(s) each followed by aabb(); "
-                f"{how} is overwritten in place and passed to update_pose again] " + name)
+        ctx = (f"[history: constructed at another pose, aabb(), then {len(hist['mids']) + 1} update_pose call(s) each followed by aabb(); "
+               f"{how} is overwritten in place and passed to update_pose again] ")
         for si, (shs, ob) in enumerate(zip(sc.history_stage_shapes(sh, hist), r.get("stages") or [])):
             where = "after construction" if si == 0 else f"after update_pose #{si} of the history"
             out += [(f"{site}@stage{si}", f) for f in judge_box(shs, case["margin"], ob["aabb"], r, sc.shape_L(shs, case["margin"] or 0.0),
@@ -217,6 +217,8 @@ def judge_case(case, r):
             if not ob.get("again_same", True):
                 out.append((site + ".state", f"{name} {where}: a second aabb() call returns another box"))
     out += [(site, f) for f in judge_box(sh, case["margin"], r["aabb"], r, L, name)]
+    if hist is not None and out:
+        out[0] = (out[0][0], ctx + out[0][1])
     if "free" in r:
         out += [(site, f) for f in judge_box(sh, None, r["free"], r, sc.shape_L(sh), f"containment.{site if sh['kind'] != 'hull' else 'axis_aligned_bounding_box'}")]
     return out
@@ -372,7 +374,10 @@ def run(tier, seed, replay=None):
                      "only up to 1 ulp / 'near' poses = an axis permutation turned by 1e-3..1e-8 rad; 25% wrapped in Margin) -> collider.aabb() and the containment free function; plus "
                      "RigidBody.make_{box,cube,sphere,ellipsoid} at identity / translated / rotated / general poses -> "
                      "RigidBody.aabb(), for 60% observed a second time after express_in(identity or another pose) [cache "
-                     "invalidation]; streams also include 'exact' (axis permutations only); the two documented witnesses are always included. distinct_nontrivial counts distinct "
+                     "invalidation]; pose histories [40-70% of the collider cases of the nine kinds with update_pose: constructed at another pose, aabb(), then 1-4 update_pose "
+                     "calls each followed by aabb() (twice), all poses carried by ONE array object overwritten in place between the calls (the constructor's own array "
+                     "or the array of the first update, optionally a matrix of a (3,4,4) stack); every stage's box is judged against the pose of that stage, the final box "
+                     "also by the certificate and the model]; streams also include 'exact' (axis permutations only); the two documented witnesses are always included. distinct_nontrivial counts distinct "
                      "case hashes whose box was judged (finite answer) and has non-zero extent on every axis or belongs to a flat shape")
     R.assumptions += [
         "theorems are about the Gallina model Model/Aabb.v instantiated at exact real arithmetic; the tie to /repo is the correspondence check run here (binary64 instance of the same model vs implementation, six bounds at 1e-9*L)",
@@ -381,6 +386,7 @@ def run(tier, seed, replay=None):
         "coverage.impl_line_coverage: source lines of /repo's containment.py, the aabb() methods of colliders.py and RigidBody.aabb()/aabbs/aabb_tree/express_in executed by this run's inputs (sys.settrace in the workers)",
         "RigidBody.aabb() is modelled as the merge of the per-tetrahedron boxes; that the tree's root box equals this merge is the C05 theorem, and is re-checked here only through the correspondence",
         "IEEE rounding is not modelled by the theorems; its effect is only measured here against 1e-9*L",
+        "pose histories: C04 is read as a statement about the collider in ANY state reachable through its public methods: after update_pose(P) the box must enclose (tightly) the shape at pose P, whichever array object carried P and whatever was asked before; observations after an in-place edit WITHOUT a following update_pose are not judged (no property text promises them)",
         "harness/compat.py import shim; numpy/numba/CPython/BLAS",
     ]
     sc.check_proofs_retry(R, PROOF_FILES, build_targets=["theories/Props/C04.vo", "theories/Model/ShapesRun.vo",
@@ -522,7 +528,13 @@ def run(tier, seed, replay=None):
             if all(e > 0 for e in ext) or sh["kind"] in ("disk", "ellipse", "hull"):
                 distinct.add(cm.canon_hash(c))
     R.cov["distinct_nontrivial"] = len(distinct)
-    R.cov["input_histogram"] = dict(cases_by_kind_stream=hist)
+    hh = {}
+    for c, r in zip(cases, results):
+        if c.get("history") is not None and "stages" in r:
+            key = c["shape"]["kind"] + ("/ctor_array" if c["history"]["ctor_array"] else "/update_array") + ("/stack" if c["history"].get("stack") else "")
+            hh[key] = hh.get(key, 0) + 1
+    R.cov["input_histogram"] = dict(cases_by_kind_stream=hist, pose_histories=hh)
+    R.cov["pose_history_cases"] = sum(hh.values())
     for c, r in list(zip(cases, results))[:3]:
         if "aabb" in r:
             R.sample(dict(shape={k: v for k, v in c["shape"].items()}, margin=c["margin"], aabb=r["aabb"]))
